@@ -48,7 +48,7 @@ def run():
     ctx = oblig.Ctx()
     oblig.install_battery(rep, ctx, ["c08_battery"])
     prog = ctx.lib
-    part_common.add(rep, prog, ["patterns", "atomic-subgroups", "top-up-order", "retention-count"], "C08", part_common.make_replayer(ctx))
+    part_common.add(rep, prog, ["patterns", "atomic-subgroups", "top-up-order", "retention-count", "subgroup-args"], "C08", part_common.make_replayer(ctx))
 
     # ---- sort_by_priority per variant
     try:
